@@ -54,7 +54,27 @@ func refCache() string {
 		return nil
 	})
 	if size > 6<<30 {
-		os.RemoveAll(dir)
+		// over the cap: drop what has not been touched for a while (another check may be building from this cache right
+		// now, so entries in recent use stay)
+		for _, age := range []time.Duration{45 * time.Minute, 10 * time.Minute} {
+			cut := time.Now().Add(-age)
+			var left int64
+			filepath.WalkDir(dir, func(p string, d os.DirEntry, err error) error {
+				if err == nil && !d.IsDir() {
+					if fi, e := d.Info(); e == nil {
+						if fi.ModTime().Before(cut) {
+							os.Remove(p)
+						} else {
+							left += fi.Size()
+						}
+					}
+				}
+				return nil
+			})
+			if left <= 6<<30 {
+				break
+			}
+		}
 	}
 	if os.MkdirAll(dir, 0o755) != nil {
 		return ""
@@ -116,7 +136,8 @@ func RunRef(cases []RefCase) ([]RefResult, error) {
 				}
 			}
 		}
-		if buildErr == nil || len(produced) > 0 || ours {
+		cacheTrouble := strings.Contains(stderr.String(), "gocache-ref") && strings.Contains(stderr.String(), "no such file or directory")
+		if buildErr == nil || ((len(produced) > 0 || ours) && !cacheTrouble) {
 			break
 		}
 		time.Sleep(2 * time.Second)
